@@ -1097,7 +1097,7 @@ func (fv *FV) sliceExpr(e *Env, x *ast.SliceExpr) Value {
 		fv.oblige(e, "bounds", x, "slice bounds in range", c)
 		fv.assume(e, c)
 	}
-	return Value{K: kSlice, T: base.T, Off: add(base.Off, lo), Len: sub(hi, lo), Cap: sub(capT, lo), Type: t}
+	return Value{K: kSlice, T: base.T, Off: add(base.Off, lo), Len: sub(hi, lo), Cap: sub(capT, lo), Type: t, Inner: base.Inner}
 }
 
 // arrayAsSlice views an array-typed expression as a slice over a fresh backing
